@@ -70,6 +70,9 @@ ASSUMPTIONS = [
     "ASCII): save() may fail locally (raise or errback) - then nothing may have been written, and every pending "
     "change is still 'changed since the last successful save': needs_save() stays True and the next save that can "
     "be sent carries them all; if an implementation does send such a value the history ends, uncompared, counted",
+    "cfg.B = cfg.A (the list object read from an option of the same type, possibly carrying A's unsaved in-place "
+    "edits) is an assignment of that list's current content to B; afterwards A and B are independent; not "
+    "generated while an assignment to A is pending",
     "refused assignments: values that neither Tor nor txtorcon's documented/tested validation can take (None or a "
     "word without digits for the Integer family, None or 'maybe' for Boolean+Auto, None or an int for a LineList) "
     "must raise; values Tor itself would accept ('4 KBytes', '10 MB', '1 hour', '1.5', 'auto', 'True', a bare str for "
@@ -88,7 +91,14 @@ LIST_OPS = ("append", "extend", "insert", "remove", "pop", "setitem", "popall")
 @st.composite
 def cases(draw, max_rounds=6):
     opts = draw(cm.option_tables("c10", min_size=2, max_size=7))
+    if draw(st.integers(0, 3)) == 0:
+        # a second option of the type of one that is there (for "B = the list read from A")
+        first = draw(st.sampled_from([o for o in opts if simconf.is_list_type(o["type"])]))
+        twins = [n for n, t in cm.POOL if t == first["type"] and all(o["name"] != n for o in opts)]
+        if twins:
+            opts.append(draw(cm.option_record(draw(st.sampled_from(twins)), "c10")))
     lists = [o for o in opts if simconf.is_list_type(o["type"])]
+    pairs = [(a, b) for a in lists for b in lists if a["type"] == b["type"] and a["name"] != b["name"]]
     scalars = [o for o in opts if not simconf.is_list_type(o["type"])]
     spell = st.sampled_from([0, 0, 1, 2, 3])
 
@@ -100,6 +110,9 @@ def cases(draw, max_rounds=6):
             kind = "inplace"
         if kind == "needs_save":
             return {"op": "needs_save"}
+        if kind == "inplace" and pairs and draw(st.integers(0, 3)) == 0:
+            a, b = draw(st.sampled_from(pairs))
+            return {"op": "assign_from", "o": b["name"], "src": a["name"], "case": draw(spell), "src_case": draw(spell)}
         if kind == "read":
             o = draw(st.sampled_from(opts))
             return {"op": "read", "o": o["name"], "case": draw(spell)}
@@ -267,6 +280,33 @@ class _Run(object):
         m.kind, m.pending, m.wire, m.touched = "assign", view, wire, True
         m.seen.append(view)
         self.wire_quiet(before, "assigning %s" % m.name)
+
+    def do_assign_from(self, s):
+        """cfg.B = cfg.A: B is assigned the very list object read from A (an option of the same type)."""
+        a, m = self.opts[s["src"]], self.opts[s["o"]]
+        if a.typ != m.typ or not a.is_list or a is m:
+            raise HarnessError("assign_from needs two different list options of one type: %r" % (s,))
+        if a.kind == "assign":
+            self.res.excluded.append("assign-from-option-with-assignment-pending")     # which list a read shows is open
+            return
+        before = len(self.pipe.commands)
+        ok, real = self.read(a, s.get("src_case", 0))
+        if not ok:
+            return
+        cur = list(a.pending) if a.kind == "inplace" else list(a.saved)
+        if not isinstance(real, list) or _strs(real) != _strs(cur):
+            self.res.excluded.append("assign-from-a-read-that-does-not-show-the-local-list")
+            return
+        try:
+            setattr(self.cfg, self.attr(m, s.get("case", 0)), real)
+        except Exception as e:
+            self.res.bad("assign-raised", "%s = cfg.%s raised %r" % (m.name, a.name, e))
+            self.dead = True
+            return
+        m.kind, m.pending, m.wire, m.touched = "assign", list(cur), None, True
+        m.seen.append(list(cur))
+        self.res.label("assigned-the-list-read-from-another-option:" + m.typ)
+        self.wire_quiet(before, "assigning %s = cfg.%s" % (m.name, a.name))
 
     def do_bad_assign(self, s):
         """An assignment that the option's validation refuses: it raises and changes nothing."""
@@ -682,6 +722,8 @@ def drive_history(case):
             run.do_assign(s)
         elif op == "bad_assign":
             run.do_bad_assign(s)
+        elif op == "assign_from":
+            run.do_assign_from(s)
         elif op in LIST_OPS:
             run.do_listop(s)
         elif op == "save":
@@ -726,6 +768,17 @@ def _fixed_cases():
         {"op": "assign", "o": "NumCPUs", "v": 8, "case": 0}, sv(False, False), bad("NumCPUs", "no"), {"op": "needs_save"},
         sv(True), bad("NumCPUs", "x1"), {"op": "needs_save"}, sv(True),
         {"op": "assign", "o": "Log", "v": ["a", "b"], "case": 0}, bad("Log", None), sv(True)]}
+    # B = the list read from A; afterwards independent
+    t4 = table + [O("DNSPort", "PortLines", value=["5353"]), O("FirewallPorts", "CommaList", value=["80"])]
+    af = lambda b_, a_: {"op": "assign_from", "o": b_, "src": a_, "case": 0, "src_case": 1}
+    for echo in (False, True):
+        yield {"opts": t4, "echo": echo, "steps": [
+            {"op": "append", "o": "SocksPort", "v": "9150", "case": 0}, af("DNSPort", "SocksPort"),
+            {"op": "append", "o": "SocksPort", "v": "9151", "case": 0}, sv(True),
+            {"op": "append", "o": "DNSPort", "v": 53, "case": 0}, sv(True), {"op": "pop", "o": "SocksPort", "i": 0, "case": 0}, sv(True)]}
+        yield {"opts": t4, "echo": echo, "steps": [
+            af("FirewallPorts", "LongLivedPorts"), sv(True), {"op": "append", "o": "LongLivedPorts", "v": "706", "case": 0},
+            sv(False, False), {"op": "append", "o": "FirewallPorts", "v": 443, "case": 0}, sv(True)]}
     # list elements given as numbers, 0 included
     t3 = table + [O("DNSPort", "PortLines", value=["5353"])]
     yield {"opts": t3, "echo": True, "steps": [
@@ -1045,6 +1098,10 @@ def run(ctx):
 
 
 MUTANTS = [
+    ("assigned-tracked-list-not-copied", "txtorcon/torconfig.py",
+     "            if isinstance(value, list):\n                value = _ListWrapper(\n                    value, functools.partial(self.mark_unsaved, name))",
+     "            if isinstance(value, list) and not isinstance(value, _ListWrapper):\n                value = _ListWrapper(\n"
+     "                    value, functools.partial(self.mark_unsaved, name))"),
     ("falsy-list-elements-skipped", "txtorcon/torconfig.py",
      "                    if x is not DEFAULT_VALUE:\n                        args.append(key)",
      "                    if x and x is not DEFAULT_VALUE:\n                        args.append(key)"),
